@@ -50,7 +50,7 @@ def check(ctx):
     ctx.attempt(_key_purity, fi)
     ctx.attempt(_placeholders_decompose)
     ctx.attempt(_perm, fi)
-    ctx.attempt(forward.check_all, module_suffixes=('containers.containers', 'tract.tract'))
+    ctx.attempt(forward.check_all, module_suffixes=('containers.containers', 'tract.tract', 'plssdesc.plssdesc'))
 
 
 def _key_tables(ctx, fi):
